@@ -18,6 +18,7 @@ CONSTANTS
   EndForms <- Set1
   LabelStmts = FALSE
   Contains = FALSE
+  Randomised = FALSE
 INVARIANT WellNested
 INVARIANT LabelsUnique
 INVARIANT Needs08Sound
